@@ -290,6 +290,17 @@ def apply(F, log=None):
             F.inlined[c] = F.bodies.pop(c)
         if not progressed:
             break
+    if done:
+        # flows / CFGs computed while selecting (semantic anchors) describe the bodies before the splice
+        import flow as _flow
+        import semantic_anchors as _sa
+        _flow._flow_cache.clear()
+        _sa._cache.clear()
+        try:
+            import callgraph as _cg
+            _cg._cg_cache.clear()
+        except Exception:
+            pass
     if log is not None and done:
         log('inlined helper(s): %s' % ', '.join('%s -> %s' % (c.split('::')[-1], p.split('::')[-1]) for c, p in done))
     return done
